@@ -45,6 +45,10 @@ type Envelope struct {
 	Proto  protocol.ID
 	Data   []byte // bytes written by the sender (varint-delimited proto frame for charon protocols)
 	Duplex bool   // sender half-closed and waits for a response
+	// Trickle > 0: a sender that takes as long as the receiver lets it: the receiver's first Read
+	// returns only Trickle before the read deadline the handler set on the stream (at once if it set
+	// none). Real waiting; it only places the delivery, verdicts never depend on it.
+	Trickle time.Duration
 
 	resp     chan []byte // duplex: response bytes (closed without value = EOF)
 	respOnce sync.Once
@@ -224,6 +228,21 @@ func (n *Net) Inject(from, to peer.ID, pid protocol.ID, msg proto.Message) ([]by
 	}
 
 	return n.InjectRaw(from, to, pid, data)
+}
+
+// InjectTrickle is Inject for a sender that delivers its message at the very edge of the receiver's
+// read deadline (eps before it).
+func (n *Net) InjectTrickle(from, to peer.ID, pid protocol.ID, msg proto.Message, eps time.Duration) ([]byte, bool) {
+	data, err := Frame(msg)
+	if err != nil {
+		return nil, false
+	}
+	n.ensureConn(from, to)
+	e := &Envelope{Seq: n.seq.Add(1), From: from, To: to, Proto: pid, Data: data, Duplex: true, Trickle: eps, resp: make(chan []byte, 1)}
+	ok := n.Deliver(e)
+	b := <-e.resp
+
+	return b, ok
 }
 
 // InjectRaw is Inject with arbitrary bytes.
@@ -479,20 +498,51 @@ type inStream struct {
 	mu   sync.Mutex
 	out  bytes.Buffer
 	done bool
+
+	readDeadline time.Time
+	trickled     bool
+}
+
+func (s *inStream) setReadDeadline(t time.Time) error {
+	s.mu.Lock()
+	s.readDeadline = t
+	s.mu.Unlock()
+
+	return nil
+}
+
+// Read hands out the envelope's bytes; a trickling sender's first byte arrives just before the
+// read deadline.
+func (s *inStream) Read(p []byte) (int, error) {
+	if s.env.Trickle > 0 {
+		s.mu.Lock()
+		first, dl := !s.trickled, s.readDeadline
+		s.trickled = true
+		s.mu.Unlock()
+		if first && !dl.IsZero() {
+			if d := time.Until(dl.Add(-s.env.Trickle)); d > 0 {
+				time.Sleep(d)
+			}
+			if !time.Now().Before(dl) { // too late after all: what a real stream does
+				return 0, os.ErrDeadlineExceeded
+			}
+		}
+	}
+
+	return s.rd.Read(p)
 }
 
 func (s *inStream) Protocol() protocol.ID                        { return s.env.Proto }
 func (s *inStream) SetProtocol(protocol.ID) error                { return nil }
 func (s *inStream) Conn() network.Conn                           { return conn{local: s.local, remote: s.env.From} }
 func (s *inStream) ID() string                                   { return "fakenet-in" }
-func (s *inStream) SetDeadline(time.Time) error                  { return nil }
-func (s *inStream) SetReadDeadline(time.Time) error              { return nil }
+func (s *inStream) SetDeadline(t time.Time) error                { return s.setReadDeadline(t) }
+func (s *inStream) SetReadDeadline(t time.Time) error            { return s.setReadDeadline(t) }
 func (s *inStream) SetWriteDeadline(time.Time) error             { return nil }
 func (s *inStream) Reset() error                                 { return s.Close() }
 func (s *inStream) ResetWithError(network.StreamErrorCode) error { return s.Close() }
 func (s *inStream) CloseRead() error                             { return nil }
 func (s *inStream) CloseWrite() error                            { return s.Close() }
-func (s *inStream) Read(p []byte) (int, error)                   { return s.rd.Read(p) }
 
 func (s *inStream) Write(p []byte) (int, error) {
 	s.mu.Lock()
